@@ -72,6 +72,19 @@ func TestC13RouterAddresses(t *testing.T) {
 		}
 		autos := 0
 		staticInRangeSeen := false
+		// long variant: a few static addresses at the edges of the automatic range first
+		var edgeStatics []string
+		if long {
+			for _, last := range []int{254, 253, 1, 2, 128} {
+				if rapid.IntRange(0, 2).Draw(t, "edge") == 0 {
+					edgeStatics = append(edgeStatics, fmt.Sprintf("%s%d", s.prefix, last))
+				}
+			}
+			n += len(edgeStatics)
+			if len(edgeStatics) > 0 {
+				c.Label("long/static-at-range-edge")
+			}
+		}
 		for i := 0; i < n; i++ {
 			kind := rapid.IntRange(0, 9).Draw(t, "kind")
 			if long {
@@ -89,6 +102,11 @@ func TestC13RouterAddresses(t *testing.T) {
 				return ""
 			}
 			switch {
+			case long && i < len(edgeStatics):
+				if ipn.Contains(net.ParseIP(edgeStatics[i])) {
+					statics = []string{edgeStatics[i]}
+					desc = "static-in-auto-range " + edgeStatics[i]
+				}
 			case kind < 4:
 			case kind < 6: // static inside the automatic range
 				if ip := pick(1, 30, s.prefix); ip != "" {
